@@ -23,6 +23,7 @@ from unified_planning.engines.compilers.utils import (
     updated_minimize_action_costs,
 )
 from unified_planning.engines.results import CompilerResult
+from unified_planning.engines.compilers.utils import rewritten_problem_kind
 from unified_planning.model import (
     AbstractProblem,
     FNode,
@@ -138,8 +139,19 @@ class DisjunctiveConditionsRemover(engines.engine.Engine, CompilerMixin):
     def resulting_problem_kind(
         problem_kind: ProblemKind, compilation_kind: Optional[CompilationKind] = None
     ) -> ProblemKind:
-        new_kind = problem_kind.clone()
-        new_kind.unset_conditions_kind("DISJUNCTIVE_CONDITIONS")
+        new_kind = rewritten_problem_kind(problem_kind)
+        if new_kind.has_disjunctive_conditions():
+            # the disjunctive normal form pushes the negations to the atoms (`a implies b` is `(not a) or b`)
+            new_kind.set_conditions_kind("NEGATIVE_CONDITIONS")
+            # a disjunction in the scope of a quantifier is not removed
+            if not (
+                new_kind.has_existential_conditions()
+                or new_kind.has_universal_conditions()
+            ):
+                new_kind.unset_conditions_kind("DISJUNCTIVE_CONDITIONS")
+        # the actions added to achieve a disjunctive goal have the integer cost 0
+        if new_kind.has_actions_cost():
+            new_kind.set_actions_cost_kind("INT_NUMBERS_IN_ACTIONS_COST")
         return new_kind
 
     def _compile(
